@@ -19,16 +19,19 @@ RULE = ("Generated: 1-2 storages (size, charge/discharge rates, charging efficie
         "steps (restarted at every block), -tol <= L <= size+tol, L = end level at the last active step (of every "
         "block), g <= cap_in*dt, h <= cap_out*dt, reported <name>_fill_level = L, <name>_charge = g, "
         "<name>_discharge = -h, min(g,h) = 0 with the no-simultaneous option, runs of L > tol no longer than the "
-        "maximum holding duration. (holding, 1 of 4 cases) a storage with a maximum holding duration alone on a grid with "
+        "maximum holding duration. Storages with an own coarser frequency or periodicity (2 of 9 variants; start level = end level "
+        "and no inflow for periodic ones): the flows per grid step are the variables' shares (disp_factor); physical level, end level "
+        "and the reported series are examined in the same way. (holding, 1 of 4 cases) a storage with a maximum holding duration alone on a grid with "
         "unequal steps (daily steps across a DST switch, calendar months; some uniform), duration strictly between two "
         "attainable run lengths: every one of the 2^T patterns of 'level non-zero at the end of step t' is pinned in "
         "EAO's problem (plus level >= 1 where non-empty) and must be feasible iff each run of non-empty steps lasts "
         "<= the duration (scipy-HiGHS). Non-trivial: the storage moves volume and one of {inflow, efficiency < 1, "
         "start != end, two nodes, blocks, MIP option}; (holding) all 2^T patterns decided on a grid with unequal steps. "
         "Distinct = distinct spec hash.")
-ASSUMPTIONS = ["maximum holding duration: the time held is the sum of the lengths of consecutive steps with a non-zero level at their end "
+ASSUMPTIONS = ["coarse frequency / periodicity: only the level clauses (physical level in [0,size], end level, reported = physical) - the "
+               "formulation itself is C13's; a periodic storage on a horizon that ends inside a period has no end-level claim",
+               "maximum holding duration: the time held is the sum of the lengths of consecutive steps with a non-zero level at their end "
                "(EAO's discretisation); both directions are demanded - never longer (statement) and every run up to the duration admitted (documented meaning of the parameter)",
-               "coarse frequency / periodicity are not part of this property's quantifier (C13)",
                "reported level compared on the storage's active steps; with blocks only when start level = end level "
                "(otherwise the level jumps at block boundaries by construction)",
                "tolerance 1e-6*(1+largest bound) (x10 for MIP)"]
@@ -39,7 +42,9 @@ def _strategy(draw):
     g = draw(gen.grids(min_T=2, max_T=12))
     nn = draw(st.integers(1, 3))
     nodes = ["n%d" % i for i in range(nn)]
-    variant = draw(st.sampled_from(["plain", "plain", "plain", "blocks", "blocks", "mip", "mip"]))
+    variant = draw(st.sampled_from(["plain", "plain", "plain", "blocks", "blocks", "mip", "mip", "coarse", "periodic"]))
+    if variant in ("coarse", "periodic") and not tl.uniform(g):
+        variant = "plain"
     prices = {"p0": draw(gen.price_series(g["T"], positive=(variant != "mip"))),
               "p1": draw(gen.price_series(g["T"]))}
     cx = gen.Cx(g, nodes, prices)
@@ -49,6 +54,18 @@ def _strategy(draw):
         a = gen.a_storage(draw, cx, "s%d" % i, mip=(variant == "mip"), blocks=(variant == "blocks"))
         if variant == "blocks" and draw(st.booleans()):
             a["end_level"] = a["start_level"]
+        if variant in ("coarse", "periodic"):
+            # the storage's own coarser frequency / periodicity: several grid steps per variable.  Only what the
+            # statement says about the physical and the reported level is examined here (the formulation is C13's)
+            a["start"] = a["end"] = None
+            a["cost_store"] = 0.0
+            a["nodes"] = a["nodes"][:1]
+            if variant == "coarse":
+                gen.coarsen(draw, cx, a)
+            else:
+                gen.periodize(draw, cx, a)
+                a["end_level"] = a["start_level"]
+                a["inflow"] = 0.0
         if a.get("block") and d7_class(a, g["T"]):
             # known finding D7 (not repaired: a pinned regression value of the suite depends on it):
             # excluded by construction - choose another block size or give up blocks
@@ -196,12 +213,15 @@ def flows(op, x, a, T):
     """charge g and discharge h per grid step from the storage's variables"""
     mp = op.mapping
     m = mp[(mp["asset"] == a["name"]) & (mp["type"] == "d")]
-    m = m[~m.index.duplicated(keep="first")]
+    multi = bool(a.get("freq") or a.get("periodicity"))
+    if not multi:
+        m = m[~m.index.duplicated(keep="first")]
+    fac = m["disp_factor"].fillna(1.0).values if (multi and "disp_factor" in m.columns) else np.ones(len(m))
     g = np.zeros(T)
     h = np.zeros(T)
     steps = set()
-    for i, vn, t in zip(m.index.values, m["var_name"].values, m["time_step"].values):
-        xi = float(x[int(i)])
+    for i, vn, t, f in zip(m.index.values, m["var_name"].values, m["time_step"].values, fac):
+        xi = float(x[int(i)]) * float(f)      # share of a variable over several steps that falls into step t
         t = int(t)
         steps.add(t)
         if vn == "disp":
@@ -249,6 +269,9 @@ def check(spec):
         s, e = a.get("start"), a.get("end")
         act = list(range(0 if s is None else max(0, s), T if e is None else min(T, e)))
         g, h, steps = flows(r.op, x, a, T)
+        multi = bool(a.get("freq") or a.get("periodicity"))
+        if multi:
+            act = steps          # a trailing remainder shorter than a coarse step has no variable
         if steps != act:
             out.fail("%s: dispatch variables on steps %s, active window is %s" % (name, steps, act))
             continue
@@ -280,6 +303,8 @@ def check(spec):
             lev = lev + eff * g[t] - h[t] + infl * dt[t]
             L[t] = lev
             last_of_block = (t == act[-1]) or ((t + 1) in bounds)
+            if multi and a.get("periodicity") and len(act) % a["_p"] != 0:
+                last_of_block = False       # the horizon ends inside a period
             if lev < -tol or lev > size + tol:
                 out.fail("%s step %d: physical fill level %g outside [0,%g]" % (name, t, lev, size))
                 break
